@@ -29,6 +29,10 @@ C = {
     'symbolic execution of rustc MIR of solve/solve_expression/match_all/match_of with symbolic operand results and thresholds; z3 against the truth tables',
     'Every connective form and arity 1..4 (6 thorough): z3 proves the result term of the real MIR equals the truth table for all operand vectors in {T,F,M}^k and all u64 thresholds, with coverage and vacuity witnesses.',
     'operands opaque (fresh SolverResult); HashMap::get exact-lookup model; tracing disabled'),
+ 'C07': ('model_checking', '3/C07',
+    'symbolic execution of rustc MIR of search / slow_aho with symbolic needles, member kinds and haystacks under the aho-corasick contract model (validated against the crate); into_identifier MIR vs the documented pattern table; list vs members on real solver MIR',
+    'All needles/haystacks within the byte bounds, all 4 relations x case flag, member kinds symbolic, three occurrence orders; every path of into_identifier on ASCII strings within the bound agrees with the pattern table.',
+    'aho-corasick by contract; regex trusted; to_lowercase ASCII; std string predicates by documented meaning'),
  'C08': ('translation_validation', '3/C08',
     'symbolic execution of rustc MIR on the quantified rule and on each member as a one-member rule; z3 decides truth(quantified) <=> quantifier(count of true members)',
     'All member lists of the template families x thresholds 0..len+1 x all scalar documents within the bounds, for key quantifiers and identifier quantifiers.',
